@@ -92,6 +92,21 @@ func suiteConvertPlain(R *runner, r *rng) {
 			}
 			for _, dst := range plainCodecs {
 				if _, skip := plainSkipPairs[src.name+"->"+dst.name]; skip {
+					if suite, ok := plainStyledModels[src.name+"->"+dst.name]; ok {
+						// the pair is not the plain-view conversion, but a model of what the destination writer sees exists
+						s2, _ := src.read(doc)
+						var out bytes.Buffer
+						o := &obs{Suite: suite, Group: "styled." + src.name + "->" + dst.name, Input: (&enc{}).n(src.code).bytes(doc).String(), NT: true,
+							Human: map[string]interface{}{"source": src.name, "destination": dst.name, "document": string(doc)}}
+						R.count("styled." + src.name + "->" + dst.name)
+						if werr := dst.write(s2, &out); werr != nil {
+							o.Impl = "1"
+						} else {
+							o.Impl = (&enc{}).n(0).bytes(out.Bytes()).String()
+						}
+						R.add(o)
+						continue
+					}
 					R.count("plain.restricted." + src.name + "->" + dst.name)
 					continue
 				}
@@ -176,10 +191,12 @@ func suiteConvertPlain(R *runner, r *rng) {
 
 // pairs for which the library's conversion of STYLED sources is not the conversion through the plain view, with the
 // reason (what the source reader sets that the destination writer emits)
-// Pairs whose conversion of STYLED sources is modelled exactly (coq/Model/Conv<S><F>.v, theorem C07_S_to_F_styled): the
-// driver suite named here maps the source document (one byte string) to the destination bytes (class 0 + bytes, class 1 =
-// error, NS outside the faithful domain of the source reader's model).  Entries are added by init() functions next to
-// the format's harness code; an entry takes precedence over plainStyledSkipPairs.
+
+// Pairs whose conversion of STYLED sources is modelled exactly (coq/Model/Conv<S><F>.v, theorem C07_S_to_F_styled) by the
+// SubRip / WebVTT / SSA slice: the driver suite named here maps the source document (one byte string) to the destination
+// bytes (class 0 + bytes, class 1 = error, NS outside the faithful domain of the source reader's model).  Entries are added
+// by init() functions (harness/conv_ssa_vtt.go, conv_ttml_vtt.go, conv_ttml_ssa.go); an entry takes precedence over
+// plainStyledModels and plainStyledSkipPairs.  (plainStyledModels is the same idea with the source code in the input.)
 var styledConvSuites = map[string]string{}
 
 // optional oracle for such a pair: the destination bytes, read back by the library, must carry the text of the source
@@ -187,16 +204,13 @@ var styledConvSuites = map[string]string{}
 var styledConvOracle = map[string]func(src *astisub.Subtitles, dst []byte) string{}
 
 var plainStyledSkipPairs = map[string]string{
-	"srt->srt":  "same format: the markup is kept (C01)",
-	"vtt->vtt":  "same format: tags, settings, regions are kept (C02)",
-	"ssa->ssa":  "same format: styles, override blocks, script info are kept (C04)",
-	"srt->vtt":  "bold/italic/underline travel as tags and the font colour as a class (modelled by Model/Conv.v, suites convsv/convops)",
-	"srt->ttml": "the font colour travels as tts:color and every run is written as its own span",
-	"srt->stl":  "the STL writer joins the runs of a line with a space; the plain view puts run texts together",
-	"vtt->stl":  "the STL writer joins the runs of a line with a space",
-	"ssa->stl":  "the STL writer joins the runs of a line with a space",
-	"vtt->ttml": "regions and the default style are written as TTML layout/styling; runs as spans",
-	"ssa->ttml": "the styles map is written as TTML styling; runs as spans",
+	"srt->srt": "same format: the markup is kept (C01)",
+	"vtt->vtt": "same format: tags, settings, regions are kept (C02)",
+	"ssa->ssa": "same format: styles, override blocks, script info are kept (C04)",
+	"srt->vtt": "bold/italic/underline travel as tags and the font colour as a class (modelled by Model/Conv.v, suites convsv/convops)",
+	"srt->stl": "the STL writer joins the runs of a line with a space; the plain view puts run texts together",
+	"vtt->stl": "the STL writer joins the runs of a line with a space",
+	"ssa->stl": "the STL writer joins the runs of a line with a space",
 	// ssa->vtt, vtt->ssa, ttml->vtt, ttml->ssa are modelled exactly (styledConvSuites: Model/ConvSsaVtt.v, ConvVttSsa.v,
 	// ConvTtmlVtt.v, ConvTtmlSsa.v; C07_*_styled).  TTML sources are decoded through the XML parser model for hand-written
 	// documents (Kit/XmlParse2.v); ttml->srt is compared; the pairs below legitimately differ from the plain view:
@@ -208,8 +222,12 @@ var plainStyledSkipPairs = map[string]string{
 // replaced by Latin words) converted by the library, destination bytes compared with the conversion through the plain
 // view: for these pairs the destination writer ignores everything the source reader sets besides times and text
 // (C07_any_source then applies to the styled document).
+// pairs of plainStyledSkipPairs whose styled conversion has its own Gallina model (coq/Model/Conv<S><F>.v): pair -> driver
+// suite taking (document) and returning the destination bytes; the library's bytes are compared with it
+var plainStyledModels = map[string]string{}
+
 func suiteConvertPlainStyled(R *runner, r *rng) {
-	R.rule("conversion of styled sources through the plain view: styled SubRip, WebVTT with regions/settings/tags/voices, SSA/ASS with styles/script info/override blocks, TTML with styles/regions (run texts = Latin words), every destination among the modelled codecs except the pairs listed with their reason in plainStyledSkipPairs; destination bytes of the library vs convert_plain")
+	R.rule("conversion of styled sources through the plain view: styled SubRip, WebVTT with regions/settings/tags/voices, SSA/ASS with styles/script info/override blocks, TTML with styles/regions (run texts = Latin words), every destination among the modelled codecs except the pairs listed with their reason in plainStyledSkipPairs; destination bytes of the library vs convert_plain; pairs with a model of their own (plainStyledModels: srt/vtt/ssa/stl -> ttml, Model/ConvTtml.v) vs that model's convert_S_F")
 	N := 12
 	if R.tier == "thorough" {
 		N = 200
@@ -307,6 +325,26 @@ func suiteConvertPlainStyled(R *runner, r *rng) {
 								o.Oracle, o.Sig = pair+": "+m, "convstyled-text-"+pair
 							}
 						}
+					}
+					R.add(o)
+					continue
+				}
+				if suite, ok := plainStyledModels[pair]; ok {
+					// a model of what the destination writer sees of this source's cues exists: compare the bytes with it
+					s2, _ := src.read(doc)
+					var out bytes.Buffer
+					o := &obs{Suite: suite, Group: "styled." + pair, Input: (&enc{}).n(src.code).bytes(doc).String(), NT: true,
+						Human: map[string]interface{}{"source": src.name, "destination": dst.name, "document": string(doc)}}
+					R.count("styled." + pair)
+					var werr error
+					p := safely(func() { werr = dst.write(s2, &out) })
+					switch {
+					case p != "":
+						o.Impl, o.Oracle, o.Sig = "2", fmt.Sprintf("%s -> %s panicked: %s", src.name, dst.name, p), "convstyled-panic"
+					case werr != nil:
+						o.Impl = "1"
+					default:
+						o.Impl = (&enc{}).n(0).bytes(out.Bytes()).String()
 					}
 					R.add(o)
 					continue
